@@ -1,9 +1,12 @@
 import DadiVerif.Lemmas.LowPassAxis
 import DadiVerif.Lemmas.LowPassInb
+import DadiVerif.Lemmas.LowPassDefined
+import DadiVerif.Lemmas.LowPassDeepPops
+import DadiVerif.Lemmas.LowPassCont
 /-!
 # C18 — the low-pass calling model redistributes probability and vanishes at deep coverage
 
-Property theorems only (helpers: Lemmas/LowPass{Sums,Part,Mat,Cov,ND,Axis,Inb}.lean).
+Property theorems only (helpers: Lemmas/LowPass{Sums,Geno,Part,Mat,Cov,ND,Axis,Inb,Defined,Deep,DeepAxis,DeepPops,Cont}.lean).
 The definitions are the ones the driver executes (Model/LowPass.lean, namespace `DadiVerif.LowPass`), whose closed
 formulas are the *generated* `Gen.LowPass.*` (re-read from dadi/LowPass/LowPass.py on every run): `part`, `pw`
 (partitions zipped with their probabilities), `projEntry`/`projRow`, `hetErr`, `callEntry`, `nocall`,
@@ -12,7 +15,7 @@ Sizes are written `2·N` sequenced and `2·m` subsampled haplotypes (the code re
 hold for every N, m, every rational coverage distribution, every rational 0 ≤ F < 1, any number of populations.
 -/
 namespace DadiVerif
-open Finset LowPass
+open Finset LowPass Filter Topology
 
 /-! ## the source has the shape the model's loop skeleton assumes -/
 
@@ -134,12 +137,12 @@ theorem C18_calling_rows (c : List ℚ) (hc : ∀ v ∈ c, 0 ≤ v) (ht : 0 < co
 /-- the three generated `P_case` expressions, summed and weighted, in closed form:
     A = Σ_d c_d 2^{-d}, B = Σ_d d c_d 2^{-d}; the negative exponent `num_heterozygous − 1 = −1` only ever
     multiplies 0 -/
-theorem C18_nocall_closed (c : List ℚ) (g : List ℕ) (pr : ℚ) :
-    nocallPart c g pr = pr *
+theorem C18_nocall_closed (c : List ℚ) (af : ℕ) (g : List ℕ) (pr : ℚ) :
+    nocallPart c af g pr = pr *
       (covAt c 0 ^ g.count 2 * covA c ^ g.count 1
         + (g.count 2 : ℚ) * covAt c 1 * covAt c 0 ^ (g.count 2 - 1) * covA c ^ g.count 1
         + covAt c 0 ^ g.count 2 * ((g.count 1 : ℚ) * covB c * covA c ^ (g.count 1 - 1))) :=
-  nocallPart_eq c g pr
+  nocallPart_eq c af g pr
 
 /-- **No-call probabilities lie in [0, 1]** for every sub-probability coverage distribution: the bracket is
     P(at most one alternative read) in a product distribution -/
@@ -249,5 +252,195 @@ theorem C18_deep_enough (c : List ℚ) (h0 : covAt c 0 = 0) (ht : covTail c = 1)
     probEnough c (2 * N) (2 * m) = 1 := probEnough_deep c h0 ht N m hm1 hmN
 
 example : probEnough [0, 0, 0, 1] 8 4 = 1 := by decide +kernel
+
+/-! ## round 4: definedness, cached partitions, deep coverage for d populations, continuity at F = 0 -/
+
+/-- **The guards of `probability_of_no_call_1D_GATK_multisample` are the right ones.**  For every coverage distribution
+    with non-negative entries and some mass — in particular with *exactly zero* mass at depth 0 and/or 1 — every power the
+    code evaluates (generated conditions `nocallDefined`: one `zpowOk base exponent` per `**` of the three `P_case`
+    expressions, the arm of the `if` that is executed only) has a non-negative exponent or a non-zero base, for every allele
+    count and every genotype configuration: no `0 ** -1`, hence no `0 * inf = nan`.  (The model's `zpowR 0 (-1) = 0` is
+    therefore never consulted where Python would differ.) -/
+theorem C18_nocall_defined (c : List ℚ) (hc : ∀ v ∈ c, 0 ≤ v) (hpos : 0 < lsum c) :
+    (∀ af g, nocallDefinedAt c af g = true) ∧ ∀ nseq, nocallOk c nseq = true :=
+  ⟨fun af g => nocallDefinedAt_true c (covA_pos c hc hpos).ne' af g, fun nseq => nocallOk_true c hc hpos nseq⟩
+
+example : covAt [0, 0, 1/2, 1/2] 0 = 0 ∧ nocallOk [0, 0, 1/2, 1/2] 6 = true ∧
+    nocall [0, 0, 1/2, 1/2] 6 0 1 = 15/16 := by decide +kernel
+
+/-- the other generated formulas are defined too: the only division of `prob_het_err` is by the mass of the depths ≥ 1,
+    and every exponent in the loop of `probability_enough_individuals_covered` is non-negative -/
+theorem C18_formulas_defined (c : List ℚ) (ht : covTail c ≠ 0) (N m : ℕ) (hm1 : 1 ≤ m) :
+    hetErrOk c = true ∧ probEnoughOk c (2 * N) (2 * m) = true :=
+  ⟨hetErrOk_true c ht, probEnoughOk_true c N m hm1⟩
+
+example : hetErrOk [0, 0, 1/2, 1/2] = true ∧ probEnoughOk [0, 0, 1/2, 1/2] 6 4 = true := by decide +kernel
+
+/-- **Cached partitions are never mutated.**  `Numerics.cached_part` returns the very list stored in `_part_cache`; the
+    generated effect table lists every in-place operation of LowPass.py (and of the `cached_part` users in Numerics.py) with
+    the verdict of a may-alias analysis of the current source: none of them can reach a cached list, although cached lists do
+    flow into `flatten_nested_list`, `part_inbreeding_probability`, `projection_inbreeding` and `simulate_reads`. -/
+theorem C18_cached_not_mutated :
+    (∀ s ∈ Gen.LowPass.inPlaceSites, s.2.2.2 = false) ∧
+    ("flatten_nested_list", "nested_list") ∈ Gen.LowPass.cachedReceivers ∧
+    ("projection_inbreeding", "partition") ∈ Gen.LowPass.cachedReceivers ∧
+    ("part_inbreeding_probability", "parts") ∈ Gen.LowPass.cachedReceivers ∧
+    "partitions_and_probabilities" ∈ Gen.LowPass.cachedReturners := by decide
+
+/-- **Deep coverage, exact form, any number of populations.**  `AB` pairs each correction axis with a reference axis.  If
+    on the support of the model spectrum the no-call probability vanishes and the kernels coincide with the reference
+    kernels, then for every `sim_threshold ≥ 0` the corrected model equals the reference projection entry-wise — the
+    simulated tables are irrelevant (nothing on the support is simulated). -/
+theorem C18_deep_exact (AB : List (Axis × Axis))
+    (h : ∀ ab ∈ AB, ab.1.nIn = ab.2.nIn ∧ ab.1.nOut = ab.2.nOut ∧
+      ∀ i, i < ab.1.nIn → ∀ j, j < ab.1.nOut → ab.1.K i j = ab.2.K i j)
+    (thr : ℚ) (hthr : 0 ≤ thr) (model : List ℕ → ℚ) (sim : List ℕ → List ℕ → ℚ)
+    (hp : ∀ i, inBox ((AB.map (·.1)).map (·.nIn)) i → model i ≠ 0 → pncND (AB.map (·.1)) i = 0)
+    (j : List ℕ) (hj : inBox ((AB.map (·.1)).map (·.nOut)) j) :
+    corrected (AB.map (·.1)) thr model sim j = projected (AB.map (·.2)) model j :=
+  corrected_exact AB h thr hthr model sim hp j hj
+
+/-- non-vacuity: a two-population instance whose no-call probability vanishes away from the (masked) corner -/
+example : ∃ (AB : List (Axis × Axis)) (model : List ℕ → ℚ),
+    (∀ ab ∈ AB, ab.1.nIn = ab.2.nIn ∧ ab.1.nOut = ab.2.nOut ∧
+      ∀ i, i < ab.1.nIn → ∀ j, j < ab.1.nOut → ab.1.K i j = ab.2.K i j) ∧
+    (∀ i, inBox ((AB.map (·.1)).map (·.nIn)) i → model i ≠ 0 → pncND (AB.map (·.1)) i = 0) ∧ model [1, 2] ≠ 0 := by
+  let a : Axis := { nIn := 3, nOut := 2, K := fun i j => if i = j then 1 else 0, pnc := fun i => if i = 0 then 1 else 0 }
+  refine ⟨[(a, a), (a, a)], fun i => if i = [1, 2] then 1 else 0, ?_, ?_, by simp⟩
+  · intro ab _; exact ⟨rfl, rfl, fun _ _ _ _ => rfl⟩
+  · intro i _ hm
+    have : i = [1, 2] := by by_contra hne; simp [hne] at hm
+    subst this; simp [pncND, a]
+
+/-- **Deep coverage, quantitative form, any number of populations** (ℓ¹ norm over the output spectrum).  ε bounds the
+    no-call probability on the support of the model, δ the ℓ¹ distance of every row of every axis kernel from the reference
+    kernel, σ the ℓ¹ distance of a simulated table from the reference row (needed only where an entry is simulated). -/
+theorem C18_deep_bound (δ ε σ : ℚ) (hδ : 0 ≤ δ) (hε0 : 0 ≤ ε) (hσ0 : 0 ≤ σ) (AB : List (Axis × Axis))
+    (h : ∀ ab ∈ AB, PairOk δ ab) (thr : ℚ) (model : List ℕ → ℚ) (sim : List ℕ → List ℕ → ℚ)
+    (hε : ∀ i, inBox ((AB.map (·.1)).map (·.nIn)) i → model i ≠ 0 → pncND (AB.map (·.1)) i ≤ ε)
+    (hσ : ∀ i, inBox ((AB.map (·.1)).map (·.nIn)) i → model i ≠ 0 →
+      Gen.LowPass.useSim (pncND (AB.map (·.1)) i) thr = true →
+      sumBox ((AB.map (·.1)).map (·.nOut)) (fun j => |sim i j - kerND (AB.map (·.2)) i j|) ≤ σ) :
+    sumBox ((AB.map (·.1)).map (·.nOut))
+        (fun j => |corrected (AB.map (·.1)) thr model sim j - projected (AB.map (·.2)) model j|)
+      ≤ (ε + (AB.length : ℚ) * δ + σ) * sumBox ((AB.map (·.1)).map (·.nIn)) (fun i => |model i|) :=
+  corrected_l1 δ ε σ hδ hε0 hσ0 AB h thr model sim hε hσ
+
+/-- **One population, any coverage**: every row of the kernel the code builds, `(prob_enough·projection_matrix)·calling_error`,
+    is within (1 − prob_enough) + 2·n_sub·prob_het_err (ℓ¹) of the row of `projection_matrix` (for F = 0 the
+    hypergeometric projection) -/
+theorem C18_deep_axis (p : Pop) (hp : PopOk p) (pe : ℚ) (hpe0 : 0 ≤ pe) (hpe1 : pe ≤ 1) (i : ℕ) (hi : i < p.nseq + 1) :
+    ∑ j ∈ range (p.nsub + 1), |(mkAxis p.c p.nseq p.nsub p.F pe).K i j - (refAxis p).K i j|
+      ≤ (1 - pe) + 2 * (((p.nsub : ℕ) : ℚ) * hetErr p.c) ∧
+    ∀ j, j < p.nsub + 1 → (refAxis p).K i j = projEntry p.nseq p.nsub p.F i j :=
+  ⟨mkAxis_dev_gen p hp pe hpe0 hpe1 i hi, fun j hj => refAxis_K_eq p i j hi hj⟩
+
+/-- **No mass below depth D**: prob_het_err ≤ 2·2^{-D}; the no-call probability of a polymorphic allele count is at most
+    (1 + af·D)·2^{-D} (D ≥ 2); enough individuals are covered with probability exactly one (the condition the code needs
+    is only P(depth 0) = 0) -/
+theorem C18_deep_depth (c : List ℚ) (hc : ∀ v ∈ c, 0 ≤ v) (hs : lsum c = 1) (D : ℕ) (hD : 2 ≤ D)
+    (hdeep : ∀ d, d < D → covAt c d = 0) (N m : ℕ) (hm1 : 1 ≤ m) (hmN : m ≤ N) (F : ℚ) (hF0 : 0 ≤ F) (hF1 : F < 1) :
+    hetErr c ≤ 2 * (1 / 2) ^ D ∧
+    (∀ af, 1 ≤ af → af ≤ 2 * N → nocall c (2 * N) F af ≤ (1 + (af : ℚ) * (D : ℚ)) * (1 / 2) ^ D) ∧
+    probEnough c (2 * N) (2 * m) = 1 := by
+  have h0 : covAt c 0 = 0 := hdeep 0 (by omega)
+  have ht : covTail c = 1 := by have := lsum_eq_head_tail c; rw [h0, hs] at this; linarith
+  exact ⟨hetErr_le_deep c hc (by rw [ht]; norm_num) D hdeep,
+    fun af h1 h2 => nocall_le_deep c hc hs.le D hD hdeep N F hF0 hF1 af h1 h2,
+    probEnough_deep c h0 ht N m hm1 hmN⟩
+
+/-- **Deep coverage for the matrices the code builds, any number of populations.**  If every population is well-formed, its
+    coverage distribution sums to one and no depth below `D = deepDepth pops ≥ 2` has positive probability, and the model
+    spectrum vanishes at the all-zero corner (it is masked there), then the corrected model is within
+    `deepBound pops + σ` (relative, ℓ¹) of the plain projection of the model spectrum through `projection_matrix` —
+    `deepBound = (1 + max nseq·D)·2^{-D} + (number of populations)·4·max nsub·2^{-D}`; σ bounds the deviation of the
+    simulated tables, only where entries are simulated. -/
+theorem C18_deep_coverage (pops : List Pop) (h : ∀ p ∈ pops, PopOk p ∧ lsum p.c = 1) (hD : 2 ≤ deepDepth pops)
+    (thr σ : ℚ) (hσ0 : 0 ≤ σ) (model : List ℕ → ℚ) (sim : List ℕ → List ℕ → ℚ)
+    (hcorner : ∀ i, (∀ k ∈ i, k = 0) → model i = 0)
+    (hσ : ∀ i, inBox ((axesOf pops).map (·.nIn)) i → model i ≠ 0 →
+      Gen.LowPass.useSim (pncND (axesOf pops) i) thr = true →
+      sumBox ((axesOf pops).map (·.nOut)) (fun j => |sim i j - kerND (refAxesOf pops) i j|) ≤ σ) :
+    sumBox ((axesOf pops).map (·.nOut))
+        (fun j => |corrected (axesOf pops) thr model sim j - projected (refAxesOf pops) model j|)
+      ≤ (deepBound pops + σ) * sumBox ((axesOf pops).map (·.nIn)) (fun i => |model i|) := by
+  set D := deepDepth pops with hDdef
+  set Mq := maxOf (pops.map (·.nseq)) with hMq
+  set M := maxOf (pops.map (·.nsub)) with hM
+  have hdeep : PopsDeep D pops := fun p hp => ⟨(h p hp).1, (h p hp).2, deepCov_of_deepDepth pops p hp⟩
+  have hMq' : ∀ p ∈ pops, p.nseq ≤ Mq := fun p hp => le_maxOf _ _ (List.mem_map.mpr ⟨p, hp, rfl⟩)
+  have hM' : ∀ p ∈ pops, p.nsub ≤ M := fun p hp => le_maxOf _ _ (List.mem_map.mpr ⟨p, hp, rfl⟩)
+  have hpairs := deepPairs_ok D M (by omega) pops hdeep hM'
+  have hA : ∀ a ∈ axesOf pops, AxisOk a := by
+    rw [← deepPairs_fst]; exact pair_ok1 _ _ hpairs
+  have hpnc := pops_pnc_le D Mq hD pops hdeep hMq'
+  have key := corrected_l1 (deepDelta D M) (deepEps D Mq) σ (deepDelta_nonneg D M) (deepEps_nonneg D Mq) hσ0
+    (deepPairs pops) hpairs thr model sim
+  rw [deepPairs_fst, deepPairs_snd] at key
+  have hlen : (deepPairs pops).length = pops.length := by simp [deepPairs]
+  rw [hlen] at key
+  have := key
+    (fun i hi hm => pncND_le (deepEps D Mq) (deepEps_nonneg D Mq) (axesOf pops) hA hpnc i hi
+      (fun hall => hm (hcorner i hall)))
+    hσ
+  simpa [deepBound, ← hDdef, ← hMq, ← hM] using this
+
+/-- … and **the simulated-regime switch is irrelevant** as soon as `sim_threshold` is at least the no-call bound
+    `(1 + max nseq·D)·2^{-D}` (e.g. the default 1e-2 for D ≥ 14, nseq ≤ 40): nothing on the support is simulated and the bound
+    holds with σ = 0, whatever the simulated tables are. -/
+theorem C18_deep_coverage_analytic (pops : List Pop) (h : ∀ p ∈ pops, PopOk p ∧ lsum p.c = 1) (hD : 2 ≤ deepDepth pops)
+    (thr : ℚ) (hthr : deepEps (deepDepth pops) (maxOf (pops.map (·.nseq))) ≤ thr)
+    (model : List ℕ → ℚ) (sim : List ℕ → List ℕ → ℚ) (hcorner : ∀ i, (∀ k ∈ i, k = 0) → model i = 0) :
+    sumBox ((axesOf pops).map (·.nOut))
+        (fun j => |corrected (axesOf pops) thr model sim j - projected (refAxesOf pops) model j|)
+      ≤ deepBound pops * sumBox ((axesOf pops).map (·.nIn)) (fun i => |model i|) := by
+  have hdeep : PopsDeep (deepDepth pops) pops := fun p hp => ⟨(h p hp).1, (h p hp).2, deepCov_of_deepDepth pops p hp⟩
+  have hM' : ∀ p ∈ pops, p.nsub ≤ maxOf (pops.map (·.nsub)) := fun p hp => le_maxOf _ _ (List.mem_map.mpr ⟨p, hp, rfl⟩)
+  have hMq' : ∀ p ∈ pops, p.nseq ≤ maxOf (pops.map (·.nseq)) := fun p hp => le_maxOf _ _ (List.mem_map.mpr ⟨p, hp, rfl⟩)
+  have hA : ∀ a ∈ axesOf pops, AxisOk a := by
+    rw [← deepPairs_fst]; exact pair_ok1 _ _ (deepPairs_ok _ _ (by omega) pops hdeep hM')
+  have hpnc := pops_pnc_le _ _ hD pops hdeep hMq'
+  have := C18_deep_coverage pops h hD thr 0 (le_refl _) model sim hcorner (by
+    intro i hi hm hu
+    exfalso
+    have hle := pncND_le _ (deepEps_nonneg _ _) (axesOf pops) hA hpnc i hi (fun hall => hm (hcorner i hall))
+    have : ¬ (pncND (axesOf pops) i > thr) := by push_neg; linarith
+    simp [Gen.LowPass.useSim, this] at hu)
+  simpa using this
+
+example : PopOk ⟨[0, 0, 0, 0, 0, 0, 1/2, 1/2], 6, 4, 1/5⟩ ∧ lsum [0, 0, 0, 0, 0, 0, 1/2, (1/2 : ℚ)] = 1 ∧
+    deepDepth [⟨[0, 0, 0, 0, 0, 0, 1/2, 1/2], 6, 4, 1/5⟩, ⟨[0, 0, 0, 0, 0, 0, 0, 1], 4, 2, 0⟩] = 6 ∧
+    deepBound [⟨[0, 0, 0, 0, 0, 0, 1/2, 1/2], 6, 4, 1/5⟩, ⟨[0, 0, 0, 0, 0, 0, 0, 1], 4, 2, 0⟩] = 69/64 := by
+  refine ⟨⟨by decide +kernel, by decide +kernel, by decide +kernel, by norm_num, by norm_num, 3, 2, rfl, rfl, by norm_num, by norm_num⟩,
+    by decide +kernel, by decide +kernel, by decide +kernel⟩
+
+/-- **Continuity at F = 0⁺ (ε–δ form, in the topology of ℚ).**  For every allele count 0 ≤ x ≤ 2n and every genotype
+    configuration, the probability computed by the code's F > 0 branch (`part_inbreeding_probability`, normalised) tends to
+    the probability computed by its F = 0 branch (multinomial ways·2^het, normalised) as F → 0⁺; `pw x n F` is the list of
+    these probabilities. -/
+theorem C18_F_continuity (x n : ℕ) (hx : x ≤ 2 * n) (g : List ℕ) (hg : g ∈ part x n 0 2) :
+    Tendsto (fun F : ℚ => partProb x n F g) (𝓝[>] 0) (𝓝 (partProb x n 0 g)) ∧
+    ∀ F, pw x n F = (part x n 0 2).map fun g => (g, partProb x n F g) :=
+  ⟨partProb_tendsto x n hx g hg, fun F => pw_eq_map x n F⟩
+
+/-- … hence everything computed *through* the partition probabilities is continuous at F = 0⁺: the calling-error matrix and
+    the no-call probabilities tend to their F = 0 values, and the F > 0 branch of `projection_matrix` tends to the
+    Hardy–Weinberg mixture of the individual-subsampling rows.
+    *partial*: that this mixture equals the hypergeometric row returned by the F = 0 branch of `projection_matrix`
+    (`projMix0 (2N) (2m) af j = hypW (2m) (2N) af j`, a double-counting identity over haplotype configurations) is not
+    formalised; it is checked numerically (|PM(F) − PM(0)| ≤ 4·n_seq·F + 1e-9 on the real code, K `projmix0`). -/
+theorem C18_F_continuity_matrices_partial (e : ℚ) (c : List ℚ) (N m af : ℕ) :
+    (af ≤ 2 * m → ∀ t, Tendsto (fun F => callEntryE e (2 * m) F af t) (𝓝[>] 0) (𝓝 (callEntryE e (2 * m) 0 af t))) ∧
+    (af ≤ 2 * N → Tendsto (fun F => nocall c (2 * N) F af) (𝓝[>] 0) (𝓝 (nocall c (2 * N) 0 af))) ∧
+    (af ≤ 2 * N → ∀ nsub j, Tendsto (fun F => projEntry (2 * N) nsub F af j) (𝓝[>] 0) (𝓝 (projMix0 (2 * N) nsub af j))) :=
+  ⟨fun h t => callEntryE_tendsto e m af t h, fun h => nocall_tendsto c N af h, fun h nsub j => projEntry_tendsto N nsub af j h⟩
+
+example : projMix0 6 4 2 1 = hypW 4 6 2 1 := by decide +kernel
+
+/-- explicit modulus for the generated single-individual genotype probabilities: |p_k(F) − p_k(0)| ≤ F/4, F/2, F/4 -/
+theorem C18_F_lipschitz_genotype (p F : ℚ) (hp0 : 0 ≤ p) (hp1 : p ≤ 1) (hF0 : 0 < F) (hF1 : F < 1) :
+    |Gen.LowPass.inbP00 p F - (1 - p) ^ 2| ≤ F / 4 ∧ |Gen.LowPass.inbP01 p F - 2 * p * (1 - p)| ≤ F / 2 ∧
+    |Gen.LowPass.inbP11 p F - p ^ 2| ≤ F / 4 :=
+  inbP_lipschitz p F hp0 hp1 hF0 hF1
 
 end DadiVerif
